@@ -1,9 +1,11 @@
 (* Single entry point of the executable models: function id + argument tree -> result tree. *)
 From PV Require Export Model.ComponentsX.
+From PV Require Export Model.JobGroupX.
 
 Definition dispatch (f : Z) (x : sx) : sx :=
   match f with
   | 1 => x_bs x | 2 => x_ps x | 3 => x_wp x | 4 => x_pr x | 5 => x_perm x | 6 => x_check_value x | 7 => x_unit_prod x
   | 10 => x_run_prog x
+  | 1900 => x_jobgroup_run x
   | _ => L []
   end%Z.
